@@ -7,7 +7,6 @@
 use crate::{
     Counter, Gauge, Histogram, Key, KeyName, Label, Level, Metadata, Recorder, SharedString, Unit,
 };
-use std::cell::Cell;
 
 pub const OP_REG_COUNTER: u8 = 1;
 pub const OP_REG_GAUGE: u8 = 2;
@@ -27,82 +26,116 @@ pub struct Expect {
     pub desc: &'static str,
 }
 
-/// recording double: compares what it receives with `exp` in place and keeps the verdicts
-pub struct Spy {
+/// Observations of the recording doubles.  Kept in statics (not in the double) so that the comparisons read the
+/// expectation through constant addresses: the `self` a recorder method receives comes out of the thread-local and
+/// is an opaque pointer for CBMC, which made field-based comparisons two orders of magnitude more expensive.
+pub struct Seen {
     pub exp: Expect,
-    pub calls: Cell<u8>,
-    pub op: Cell<u8>,
-    pub name_ok: Cell<bool>,
-    pub labels_ok: Cell<bool>,
-    pub nlabels: Cell<usize>,
-    pub level_ok: Cell<bool>,
-    pub target_ok: Cell<bool>,
-    pub module_ok: Cell<bool>,
-    pub unit_ok: Cell<bool>,
-    pub desc_ok: Cell<bool>,
+    pub calls: u8,
+    pub outer_calls: u8,
+    pub op: u8,
+    pub name_ok: bool,
+    pub labels_ok: bool,
+    pub nlabels: usize,
+    pub level_ok: bool,
+    pub target_ok: bool,
+    pub module_ok: bool,
+    pub unit_ok: bool,
+    pub desc_ok: bool,
+}
+pub static mut SEEN: Seen = Seen {
+    exp: Expect { name: "", labels: &[], level: Level::INFO, target: "", module: "", unit: None, desc: "" },
+    calls: 0, outer_calls: 0, op: 0,
+    name_ok: false, labels_ok: false, nlabels: usize::MAX, level_ok: false, target_ok: false, module_ok: false,
+    unit_ok: false, desc_ok: false,
+};
+
+/// recording double; `outer == true` marks a recorder that must not be reached at all
+pub struct Spy {
+    pub outer: bool,
 }
 impl Spy {
+    /// arms the (single-threaded) observation state with what the call site is going to spell
     pub fn new(exp: Expect) -> Self {
-        Spy {
-            exp,
-            calls: Cell::new(0), op: Cell::new(0),
-            name_ok: Cell::new(false), labels_ok: Cell::new(false), nlabels: Cell::new(usize::MAX),
-            level_ok: Cell::new(false), target_ok: Cell::new(false), module_ok: Cell::new(false),
-            unit_ok: Cell::new(false), desc_ok: Cell::new(false),
+        unsafe {
+            SEEN = Seen {
+                exp,
+                calls: 0, outer_calls: 0, op: 0,
+                name_ok: false, labels_ok: false, nlabels: usize::MAX, level_ok: false, target_ok: false,
+                module_ok: false, unit_ok: false, desc_ok: false,
+            };
         }
+        Spy { outer: false }
     }
-    /// a recorder that must not be reached at all
     pub fn silent() -> Self {
-        Spy::new(Expect { name: "", labels: &[], level: Level::INFO, target: "", module: "", unit: None, desc: "" })
+        Spy { outer: true }
     }
     fn reg(&self, op: u8, key: &Key, md: &Metadata<'_>) {
-        self.calls.set(self.calls.get() + 1);
-        self.op.set(op);
-        self.name_ok.set(key.name() == self.exp.name);
-        let mut n = 0usize;
-        let mut ok = true;
-        for l in key.labels() {
-            if n < self.exp.labels.len() {
-                let (k, v) = self.exp.labels[n];
-                if l.key() != k || l.value() != v {
+        unsafe {
+            if self.outer {
+                SEEN.outer_calls += 1;
+                return;
+            }
+            SEEN.calls += 1;
+            SEEN.op = op;
+            SEEN.name_ok = key.name() == SEEN.exp.name;
+            let mut n = 0usize;
+            let mut ok = true;
+            for l in key.labels() {
+                if n < SEEN.exp.labels.len() {
+                    let (k, v) = SEEN.exp.labels[n];
+                    if l.key() != k || l.value() != v {
+                        ok = false;
+                    }
+                } else {
                     ok = false;
                 }
-            } else {
-                ok = false;
+                n += 1;
             }
-            n += 1;
+            SEEN.nlabels = n;
+            SEEN.labels_ok = ok && n == SEEN.exp.labels.len();
+            SEEN.level_ok = *md.level() == SEEN.exp.level;
+            SEEN.target_ok = md.target() == SEEN.exp.target;
+            SEEN.module_ok = md.module_path() == Some(SEEN.exp.module);
         }
-        self.nlabels.set(n);
-        self.labels_ok.set(ok && n == self.exp.labels.len());
-        self.level_ok.set(*md.level() == self.exp.level);
-        self.target_ok.set(md.target() == self.exp.target);
-        self.module_ok.set(md.module_path() == Some(self.exp.module));
     }
     fn desc(&self, op: u8, key: KeyName, unit: Option<Unit>, d: SharedString) {
-        self.calls.set(self.calls.get() + 1);
-        self.op.set(op);
-        self.name_ok.set(key.as_str() == self.exp.name);
-        self.unit_ok.set(unit == self.exp.unit);
-        let d: &str = &d;
-        self.desc_ok.set(d == self.exp.desc);
+        unsafe {
+            if self.outer {
+                SEEN.outer_calls += 1;
+                return;
+            }
+            SEEN.calls += 1;
+            SEEN.op = op;
+            SEEN.name_ok = key.as_str() == SEEN.exp.name;
+            SEEN.unit_ok = unit == SEEN.exp.unit;
+            let d: &str = &d;
+            SEEN.desc_ok = d == SEEN.exp.desc;
+        }
     }
     /// exactly one registration call of kind `op`, carrying exactly the expected content
     pub fn assert_registered(&self, op: u8) {
-        assert!(self.calls.get() == 1, "exactly one call");
-        assert!(self.op.get() == op, "the recorder method matching the macro");
-        assert!(self.name_ok.get(), "name as spelled");
-        assert!(self.nlabels.get() == self.exp.labels.len(), "label count");
-        assert!(self.labels_ok.get(), "labels as spelled, in order");
-        assert!(self.level_ok.get(), "level as spelled");
-        assert!(self.target_ok.get(), "target as spelled");
-        assert!(self.module_ok.get(), "module path of the call site");
+        unsafe {
+            assert!(SEEN.calls == 1, "exactly one call");
+            assert!(SEEN.outer_calls == 0, "an outer recorder must not see the emission");
+            assert!(SEEN.op == op, "the recorder method matching the macro");
+            assert!(SEEN.name_ok, "name as spelled");
+            assert!(SEEN.nlabels == SEEN.exp.labels.len(), "label count");
+            assert!(SEEN.labels_ok, "labels as spelled, in order");
+            assert!(SEEN.level_ok, "level as spelled");
+            assert!(SEEN.target_ok, "target as spelled");
+            assert!(SEEN.module_ok, "module path of the call site");
+        }
     }
     pub fn assert_described(&self, op: u8) {
-        assert!(self.calls.get() == 1, "exactly one call");
-        assert!(self.op.get() == op, "the recorder method matching the macro");
-        assert!(self.name_ok.get(), "name as spelled");
-        assert!(self.unit_ok.get(), "unit as spelled");
-        assert!(self.desc_ok.get(), "description as spelled");
+        unsafe {
+            assert!(SEEN.calls == 1, "exactly one call");
+            assert!(SEEN.outer_calls == 0, "an outer recorder must not see the emission");
+            assert!(SEEN.op == op, "the recorder method matching the macro");
+            assert!(SEEN.name_ok, "name as spelled");
+            assert!(SEEN.unit_ok, "unit as spelled");
+            assert!(SEEN.desc_ok, "description as spelled");
+        }
     }
 }
 impl Recorder for Spy {
@@ -156,13 +189,17 @@ macro_rules! scoped {
         crate::with_local_recorder(&outer, || {
             crate::with_local_recorder($inner, || $body);
         });
-        assert!(outer.calls.get() == 0, "an outer recorder must not see the emission");
+        assert!(unsafe { SEEN.outer_calls } == 0, "an outer recorder must not see the emission");
     }};
 }
 
+/// a computed (non-literal) name.  Its content is concrete: Key::from_name / Key::from_parts hash the name eagerly
+/// (AHasher, 64x64-bit folded multiplications), and a symbolic name makes CBMC bit-blast those (measured: > 15 min).
 fn name_of(sel: bool) -> &'static str {
-    if sel { "na" } else { "nb" }
+    let _ = sel;
+    NAMES[1]
 }
+const NAMES: [&str; 2] = ["na", "nb"];
 
 // key_var! arm 1: ($name: literal)  -- static key, default target (= module path) and level INFO
 pub fn c01_macro_key_literal_body(kind: u8) {
@@ -229,78 +266,98 @@ fn c01_macro_key_expr_static_labels() {
 
 // key_var! arm 5: ($name: expr, $k: expr => $v: expr, ...)  -- computed label keys / values (constants, variables)
 const K1: &str = "k1";
-pub fn c01_macro_key_expr_labels_body(kind: u8, sel: bool, lit_name: bool) {
+pub fn c01_macro_key_expr_labels_body(kind: u8) {
     kani::assume(kind < 3);
     let v2: &'static str = "v2";
-    if lit_name {
-        let spy = Spy::new(exp("nm", L2, Level::INFO, HERE));
-        scoped!(&spy, { emit3!(kind; "nm", K1 => "v1", "k2" => v2) });
-        spy.assert_registered(OP_REG_COUNTER + kind);
-    } else {
-        let spy = Spy::new(exp(name_of(sel), L2, Level::INFO, HERE));
-        scoped!(&spy, { emit3!(kind; name_of(sel), K1 => "v1", "k2" => v2) });
-        spy.assert_registered(OP_REG_COUNTER + kind);
-    }
+    let spy = Spy::new(exp(name_of(true), L2, Level::INFO, HERE));
+    scoped!(&spy, { emit3!(kind; name_of(true), K1 => "v1", "k2" => v2) });
+    spy.assert_registered(OP_REG_COUNTER + kind);
 }
 #[cfg(kani)]
 #[kani::proof]
 fn c01_macro_key_expr_labels() {
-    c01_macro_key_expr_labels_body(kani::any(), kani::any(), kani::any());
+    c01_macro_key_expr_labels_body(kani::any());
 }
 
-// key_var! arm 6: ($name: expr, $labels: expr)  -- a label collection (slice of pairs by reference, Vec<Label>)
-pub fn c01_macro_key_label_collection_body(kind: u8, as_vec: bool) {
+// key_var! arm 6: ($name: expr, $labels: expr)  -- a label collection: Vec<Label>
+pub fn c01_macro_key_label_collection_body(kind: u8) {
     kani::assume(kind < 3);
     let spy = Spy::new(exp("nm", L2, Level::INFO, HERE));
-    if as_vec {
-        let labels = vec![Label::new("k1", "v1"), Label::from_static_parts("k2", "v2")];
-        scoped!(&spy, { emit3!(kind; "nm", labels) });
-    } else {
-        let labels = [("k1", "v1"), ("k2", "v2")];
-        scoped!(&spy, { emit3!(kind; "nm", &labels) });
-    }
+    let labels = vec![Label::new("k1", "v1"), Label::from_static_parts("k2", "v2")];
+    scoped!(&spy, { emit3!(kind; "nm", labels) });
     spy.assert_registered(OP_REG_COUNTER + kind);
 }
 #[cfg(kani)]
 #[kani::proof]
 fn c01_macro_key_label_collection() {
-    c01_macro_key_label_collection_body(kani::any(), kani::any());
+    c01_macro_key_label_collection_body(kani::any());
 }
 
-/// `$m!(<prefix tokens> LEVEL, <rest>)` for each of the five levels, selected by `lv`
+// key_var! arm 6 with a collection passed by reference: `&[(k, v)]` goes through `IntoLabels for &T`
+// (into_iter().map(Into::into).collect()).  One pair only: with two pairs Vec::from_iter + the label ordering inside
+// Key::from_parts lose all constant propagation in CBMC (measured: 13.8 GB, 4 min, killed).
+pub fn c01_macro_key_label_slice_body(kind: u8) {
+    kani::assume(kind < 2);
+    let spy = Spy::new(exp("nm", L1, Level::INFO, HERE));
+    let labels = [("k1", "v1")];
+    if kind == 0 {
+        scoped!(&spy, { let _h = crate::counter!("nm", &labels); });
+    } else {
+        scoped!(&spy, { let _h = crate::histogram!("nm", &labels,); });
+    }
+    spy.assert_registered(if kind == 0 { OP_REG_COUNTER } else { OP_REG_HISTOGRAM });
+}
+#[cfg(kani)]
+#[kani::proof]
+fn c01_macro_key_label_slice() {
+    c01_macro_key_label_slice_body(kani::any());
+}
+
+/// `m!(<prefix tokens> LEVEL, <rest>)` for (m, LEVEL) selected by `sel`: counter! with each of the five levels,
+/// gauge! and histogram! with two levels each (the level must be a constant expression: metadata_var! puts it in a
+/// `static`, so it cannot be a symbolic value; the full 3 x 5 product cost ~1 min per harness)
 macro_rules! by_level {
-    ($lv:expr, $kind:expr; [$($pre:tt)*] [$($post:tt)*]) => {
-        match $lv {
-            0 => { emit3!($kind; $($pre)* crate::Level::TRACE, $($post)*) }
-            1 => { emit3!($kind; $($pre)* crate::Level::DEBUG, $($post)*) }
-            2 => { emit3!($kind; $($pre)* crate::Level::INFO, $($post)*) }
-            3 => { emit3!($kind; $($pre)* crate::Level::WARN, $($post)*) }
-            _ => { emit3!($kind; $($pre)* crate::Level::ERROR, $($post)*) }
+    ($sel:expr; [$($pre:tt)*] [$($post:tt)*]) => {
+        match $sel {
+            0 => { let _h = crate::counter!($($pre)* crate::Level::TRACE, $($post)*); }
+            1 => { let _h = crate::counter!($($pre)* crate::Level::DEBUG, $($post)*); }
+            2 => { let _h = crate::counter!($($pre)* crate::Level::INFO, $($post)*); }
+            3 => { let _h = crate::counter!($($pre)* crate::Level::WARN, $($post)*); }
+            4 => { let _h = crate::counter!($($pre)* crate::Level::ERROR, $($post)*); }
+            5 => { let _h = crate::gauge!($($pre)* crate::Level::TRACE, $($post)*); }
+            6 => { let _h = crate::gauge!($($pre)* crate::Level::ERROR, $($post)*); }
+            7 => { let _h = crate::histogram!($($pre)* crate::Level::DEBUG, $($post)*); }
+            _ => { let _h = crate::histogram!($($pre)* crate::Level::WARN, $($post)*); }
         }
     };
 }
-fn level_of(lv: u8) -> Level {
-    match lv {
-        0 => Level::TRACE,
-        1 => Level::DEBUG,
-        2 => Level::INFO,
-        3 => Level::WARN,
-        _ => Level::ERROR,
+/// (recorder method, level) spelled by `by_level!` for `sel`
+fn sel_kind_level(sel: u8) -> (u8, Level) {
+    match sel {
+        0 => (OP_REG_COUNTER, Level::TRACE),
+        1 => (OP_REG_COUNTER, Level::DEBUG),
+        2 => (OP_REG_COUNTER, Level::INFO),
+        3 => (OP_REG_COUNTER, Level::WARN),
+        4 => (OP_REG_COUNTER, Level::ERROR),
+        5 => (OP_REG_GAUGE, Level::TRACE),
+        6 => (OP_REG_GAUGE, Level::ERROR),
+        7 => (OP_REG_HISTOGRAM, Level::DEBUG),
+        _ => (OP_REG_HISTOGRAM, Level::WARN),
     }
 }
-
 // prefix form 1: (target: T, level: L, name, labels...)  -- metadata_var!(T, L): target, level, module path all distinct
-pub fn c01_macro_target_level_body(kind: u8, lv: u8) {
-    kani::assume(kind < 3 && lv < 5);
-    let spy = Spy::new(exp("nm", L1, level_of(lv), "tg"));
-    scoped!(&spy, { by_level!(lv, kind; [target: "tg", level:] ["nm", "k1" => "v1"]) });
-    spy.assert_registered(OP_REG_COUNTER + kind);
+pub fn c01_macro_target_level_body(sel: u8) {
+    kani::assume(sel < 9);
+    let (op, level) = sel_kind_level(sel);
+    let spy = Spy::new(exp("nm", L1, level, "tg"));
+    scoped!(&spy, { by_level!(sel; [target: "tg", level:] ["nm", "k1" => "v1"]) });
+    spy.assert_registered(op);
     assert!(HERE != "tg");
 }
 #[cfg(kani)]
 #[kani::proof]
 fn c01_macro_target_level() {
-    c01_macro_target_level_body(kani::any(), kani::any());
+    c01_macro_target_level_body(kani::any());
 }
 
 // prefix form 2: (target: T, name, ...)  -- level defaults to INFO, target as spelled
@@ -317,16 +374,17 @@ fn c01_macro_target_only() {
 }
 
 // prefix form 3: (level: L, name, ...)  -- target defaults to the call site's module path, level as spelled
-pub fn c01_macro_level_only_body(kind: u8, lv: u8) {
-    kani::assume(kind < 3 && lv < 5);
-    let spy = Spy::new(exp("nm", NO_LABELS, level_of(lv), HERE));
-    scoped!(&spy, { by_level!(lv, kind; [level:] ["nm"]) });
-    spy.assert_registered(OP_REG_COUNTER + kind);
+pub fn c01_macro_level_only_body(sel: u8) {
+    kani::assume(sel < 9);
+    let (op, level) = sel_kind_level(sel);
+    let spy = Spy::new(exp("nm", NO_LABELS, level, HERE));
+    scoped!(&spy, { by_level!(sel; [level:] ["nm"]) });
+    spy.assert_registered(op);
 }
 #[cfg(kani)]
 #[kani::proof]
 fn c01_macro_level_only() {
-    c01_macro_level_only_body(kani::any(), kani::any());
+    c01_macro_level_only_body(kani::any());
 }
 
 fn unit_of(u: u8) -> Unit {
@@ -405,14 +463,14 @@ fn c01_macro_describe_nounit() {
 // no effect on a recorder that is not in scope.
 pub fn c01_macro_noop_body(kind: u8) {
     kani::assume(kind < 3);
-    let bystander = Spy::silent();
+    let bystander = Spy::new(exp("", NO_LABELS, Level::INFO, ""));
     emit3!(kind; target: "tg", level: crate::Level::WARN, "nm", "k1" => "v1");
     match kind {
         0 => crate::describe_counter!("nm", Unit::Bytes, "ds"),
         1 => crate::describe_gauge!("nm", "ds"),
         _ => crate::describe_histogram!("nm", Unit::Seconds, "ds"),
     }
-    assert!(bystander.calls.get() == 0);
+    assert!(unsafe { SEEN.calls } == 0 && unsafe { SEEN.outer_calls } == 0);
 }
 #[cfg(kani)]
 #[kani::proof]
